@@ -45,7 +45,7 @@ PROPS['C13']['trusted'].append('the values of the byte-string literals COMMAND_L
 
 PROPS['C19'] = {'units': ['P'], 'spec_tags': [], 'bounded': ['frameops'],
                 'trusted': [TRUSTED_BYTES, TRUSTED_STD,
-                            'Frame::get keeps an ASSUMED contract (iter_mut().find_map with a closure that mutates the slot is outside what Verus accepts); bounded differential stand-in frameops. Frame::find is proved on top of the ASSUMED contract of std\'s provided Iterator::find_map on the Fields iterator (wrapper vx_fields_find_map: the closure is applied in order up to the first Some) and of str == str (vx_str_eq)',
+                            'Frame::get and Frame::find are proved on top of the ASSUMED contract of std\'s provided Iterator::find_map (wrappers vx_slots_find_map_mut over slice::IterMut with a ghost relation implied by the closure\'s own contract, declared no_unwind; vx_fields_find_map on the Fields iterator: the closure is applied in order up to the first Some, later slots untouched) and of str == str (vx_str_eq); bounded differential stand-in frameops as a cross-check',
                             "assumed contracts of std's default Iterator::count on the repository's Fields iterator (wrapper vx_fields_count), Option::as_deref, Arc/String::as_ref, vstd's slice::Iter / vec::IntoIter laws",
                             'termination of the hole-skipping recursion in Fields/IntoIter::{next,next_back} is not checked (exec_allows_no_decreases_clause): each recursive call consumes one slot of a finite vector',
                             'a slice / Vec of non-zero-sized elements has at most isize::MAX elements (size_hint arithmetic)']}
@@ -62,7 +62,7 @@ PROPS['C18']['bounded'] = list(PROPS['C18'].get('bounded', [])) + ['clientsim']
 PROPS['C18']['trusted'] = PROPS['C18']['trusted'] + [TRUSTED_ASYNC, 'the password is one argument the command builder accepts (no LF / NUL after rendering): precondition of do_connect, otherwise Command::argument panics (observation, DESIGN §10)']
 
 TRUSTED_PARSE = "assumed contracts on std: str::parse::<T>() is an uninterpreted function parse_spec::<T> of the text (what Rust accepts as a number is not re-specified), f64 -> Duration conversion uninterpreted (dur_of_f64), str::split_once / String::as_str / to_owned per vx_base.rs"
-TRUSTED_FRAMEGET = 'Frame::get / Frame::find keep ASSUMED contracts (ordered multimap: first field with the key, taken out by get); checked by the bounded stand-in frameops under C19'
+TRUSTED_FRAMEGET = 'Frame::get / Frame::find are PROVED (ordered multimap: first field with the key, taken out by get) on top of the ASSUMED contracts of std\'s provided Iterator::find_map on the repository\'s Fields iterator and on slice::IterMut (N10 wrappers vx_fields_find_map / vx_slots_find_map_mut: the closure is applied in order up to the first Some, later slots untouched); cross-checked by the bounded stand-in frameops under C19'
 TRUSTED_ORACLE_FIELDS = "oracle: MPD's reply field names and value domains (status, stats, replay_gain_status, ...) transcribed from the protocol reference into the spec functions of contracts/mpd_client/responses.vspec"
 PROPS['C16'] = {'units': ['C'], 'spec_tags': [], 'trusted': [TRUSTED_PARSE, TRUSTED_FRAMEGET, TRUSTED_ORACLE_FIELDS, TRUSTED_STD], 'bounded': ['typeddiff']}
 PROPS['C12'] = {'units': ['C'], 'spec_tags': [], 'trusted': [TRUSTED_PARSE, TRUSTED_FRAMEGET, TRUSTED_STD,
@@ -140,7 +140,7 @@ PROPS['C14'].pop('category', None); PROPS['C14'].pop('technique', None)
 PROPS['C14']['trusted'] = [TRUSTED_PARSE, TRUSTED_FRAMEGET, TRUSTED_STD,
     "oracle: the listing fold (contracts/mpd_client/song.vspec: start_step / song_step / run / songs_of), an operational transcription of the property's mechanism (entries start at file / directory / playlist; attributes collected since the last file line; duration preferred over the legacy Time; everything else is a tag filed under its protocol name)",
     "ASSUMED (N10 same-body wrappers): HashMap<Tag, Vec<String>>::entry(tag).or_default().push(v) appends v to the values filed under the tag's protocol name (std HashMap + the repository's Hash/Eq on Tag, which go by name: proved under C20); the compiler-derived SongBuilder::default() / mem::take leave every field empty / zero / None; &Arc<str> derefs to its text",
-    "field names are non-empty and consist of ASCII letters, '_' and '-': PROVED as a type invariant of mpd_protocol's field container (push_field requires a wire key; ResponseBuilder::parse discharges it from the parser's contract; lemma_frame_keys), required by Command::response at the trait level and discharged in Client::command / raw_command_list. It rests on: Frame::get's assumed contract and the derived Clone keep the slots' keys; Vec::push does not unwind (N10 wrapper vx_slots_push)",
+    "field names are non-empty and consist of ASCII letters, '_' and '-': PROVED as a type invariant of mpd_protocol's field container (push_field requires a wire key; ResponseBuilder::parse discharges it from the parser's contract; lemma_frame_keys), required by Command::response at the trait level and discharged in Client::command / raw_command_list. It rests on: the derived Clone keeps the slots' keys; Vec::push and iter_mut().find_map (with the closure of Frame::get) do not unwind (N10 wrappers vx_slots_push, vx_slots_find_map_mut)",
     'verified WITHOUT the chrono feature (every Last-Modified text is accepted; with chrono a text that is no RFC 3339 timestamp is an error)',
     'termination of the loops over the frame iterator is not checked (exec_allows_no_decreases_clause)']
 PROPS['C14']['level_text'] = ("Proved for all listings: Song::from_frame_multi, SongInQueue::from_frame_multi and from_frame_single compute exactly the fold of the listing oracle over the frame's fields (one song per file entry, server order, each with the url, duration, position/id/priority/range, format, "
